@@ -250,15 +250,27 @@ fn run_edge_probes(ctx: &mut Ctx) {
     let _ = G1Affine::identity();
 }
 
+/// Run one section; a panic that escapes the per-case `catch` is itself reported (the inputs are
+/// all inside the documented domain of the entry points).
+fn section(ctx: &mut Ctx, name: &str, f: impl FnOnce(&mut Ctx)) {
+    if let Err(m) = mzkh::catch(|| f(ctx)) {
+        ctx.oracle_fail(
+            &format!("section-panic:{name}"),
+            "the implementation panicked outside the per-case guard while the harness exercised it",
+            serde_json::json!({"section": name, "message": m}),
+        );
+    }
+}
+
 fn main() {
     let mut ctx = Ctx::from_args("C12");
-    run_parallelize(&mut ctx);
-    run_booth(&mut ctx);
-    run_msm(&mut ctx);
-    run_edge_probes(&mut ctx);
-    poly::run_fft(&mut ctx);
-    poly::run_eval_kate_interp(&mut ctx);
-    poly::run_domain(&mut ctx);
-    poly::run_commit(&mut ctx);
+    section(&mut ctx, "parallelize", run_parallelize);
+    section(&mut ctx, "booth", run_booth);
+    section(&mut ctx, "msm", run_msm);
+    section(&mut ctx, "edge", run_edge_probes);
+    section(&mut ctx, "fft", poly::run_fft);
+    section(&mut ctx, "eval-kate-interp", poly::run_eval_kate_interp);
+    section(&mut ctx, "domain", poly::run_domain);
+    section(&mut ctx, "commit", poly::run_commit);
     ctx.finish();
 }
